@@ -18,8 +18,13 @@
 //!     DIR/events.ndjson (one event per triple whose proof decodes)
 //! refverify events --items ITEMS.json --dir DIR
 //!     (re)computes DIR/events.ndjson from the tables of DIR (used by replay)
-//! refverify judge --dir DIR        (needs DIR/scalars.ndjson from TLC)
-//!     prints one NDJSON result per triple
+//! refverify judge --dir DIR [--items ITEMS.json]  (needs DIR/scalars.ndjson from TLC)
+//!     prints one NDJSON result per triple. With --items ("Binding 2") the
+//!     transcript operations the real verifier records through the library's
+//!     trace hook (`dusk_plonk::verif::transcript_trace_*`) are compared
+//!     EXACTLY - kind, label, payload bytes, squeezed challenges, nothing
+//!     extra, nothing missing - with the operations the exported item list
+//!     performs on the same data.
 //! refverify one   --items ITEMS.json  (stdin: {"verifier":hex,"proof":hex,
 //!     "pis":[hex],"version":n}) prints the event of a single triple (replay)
 
@@ -159,15 +164,39 @@ fn static_label(l: &[u8]) -> &'static [u8] {
     leaked
 }
 
-/// Runs the exported item list; returns the squeezed challenges by name.
+/// One transcript operation, in the vocabulary of the library's trace hook
+/// (`dusk_plonk::verif::TranscriptOp`): kind in new | message | u64 |
+/// commitment | scalar | challenge.
+#[derive(Clone, Debug, PartialEq, Eq)]
+struct Op {
+    kind: String,
+    label: Vec<u8>,
+    data: Vec<u8>,
+}
+
+fn op_json(o: &Op) -> Value {
+    json!({"kind": o.kind, "label": String::from_utf8_lossy(&o.label), "data": hex_bytes(&o.data)})
+}
+
+fn take_real_ops() -> Vec<Op> {
+    dusk_plonk::verif::transcript_trace_take()
+        .into_iter()
+        .map(|o| Op { kind: o.kind.to_string(), label: o.label, data: o.data })
+        .collect()
+}
+
+/// Runs the exported item list; returns the squeezed challenges by name and
+/// the operations performed (for the comparison with the implementation's
+/// recorded transcript).
 fn run_items(
     items: &[Value],
     v: &ParsedVerifier,
     p: &ParsedProof,
     pis: &[BlsScalar],
-) -> Result<HashMap<String, BlsScalar>, String> {
+) -> Result<(HashMap<String, BlsScalar>, Vec<Op>), String> {
     let mut t: Option<Transcript> = None;
     let mut ch: HashMap<String, BlsScalar> = HashMap::new();
+    let mut ops: Vec<Op> = Vec::new();
     for it in items {
         let kind = it["kind"].as_str().ok_or("item kind")?;
         let label = static_label(it["label"].as_str().ok_or("item label")?.as_bytes());
@@ -178,6 +207,7 @@ fn run_items(
                 return Err(format!("unknown label source {src}"));
             }
             t = Some(Transcript::new(static_label(&v.label)));
+            ops.push(Op { kind: "new".into(), label: v.label.clone(), data: vec![] });
             continue;
         }
         let tr = t.as_mut().ok_or("item before label-init")?;
@@ -185,6 +215,7 @@ fn run_items(
             "append-message" => {
                 let lit = src.strip_prefix("lit:").ok_or("append-message needs a literal")?;
                 tr.append_message(label, lit.as_bytes());
+                ops.push(Op { kind: "message".into(), label: label.to_vec(), data: lit.as_bytes().to_vec() });
             }
             "append-u64" => {
                 let x = match src {
@@ -193,6 +224,7 @@ fn run_items(
                     _ => return Err(format!("unknown u64 source {src}")),
                 };
                 tr.append_u64(label, x);
+                ops.push(Op { kind: "u64".into(), label: label.to_vec(), data: x.to_le_bytes().to_vec() });
             }
             "append-point" => {
                 let pt = v
@@ -201,6 +233,7 @@ fn run_items(
                     .or_else(|| p.points.get(src))
                     .ok_or_else(|| format!("unknown point source {src}"))?;
                 tr.append_message(label, &pt.to_bytes());
+                ops.push(Op { kind: "commitment".into(), label: label.to_vec(), data: pt.to_bytes().to_vec() });
             }
             "append-scalar" => {
                 let s = if src == "pi" {
@@ -211,16 +244,56 @@ fn run_items(
                     *p.scalars.get(src).ok_or_else(|| format!("unknown scalar source {src}"))?
                 };
                 tr.append_message(label, &s.to_bytes());
+                ops.push(Op { kind: "scalar".into(), label: label.to_vec(), data: s.to_bytes().to_vec() });
             }
             "challenge" => {
                 let mut buf = [0u8; 64];
                 tr.challenge_bytes(label, &mut buf);
-                ch.insert(src.to_string(), BlsScalar::from_bytes_wide(&buf));
+                let c = BlsScalar::from_bytes_wide(&buf);
+                ch.insert(src.to_string(), c);
+                ops.push(Op { kind: "challenge".into(), label: label.to_vec(), data: c.to_bytes().to_vec() });
             }
             other => return Err(format!("unknown item kind {other}")),
         }
     }
-    Ok(ch)
+    Ok((ch, ops))
+}
+
+/// Item list of a role ("verifier" | "prover") for a version and #pi.
+fn items_for<'a>(items_all: &'a Value, role: &str, version: u64, npi: usize) -> Result<&'a Vec<Value>, String> {
+    items_all[role][version_name(version)]
+        .as_array()
+        .ok_or("items: no list")?
+        .get(npi)
+        .and_then(|x| x.as_array())
+        .ok_or_else(|| format!("items: no list for {npi} public inputs"))
+}
+
+/// Exact comparison of the implementation's recorded operations with the
+/// specification's; `None` = identical.
+fn diff_ops(expected: &[Op], observed: &[Op]) -> Option<Value> {
+    let n = expected.len().max(observed.len());
+    for i in 0..n {
+        let (e, o) = (expected.get(i), observed.get(i));
+        if e != o {
+            let label = e.or(o).map(|x| String::from_utf8_lossy(&x.label).to_string()).unwrap_or_default();
+            return Some(json!({
+                "at": i, "label": label,
+                "expected": e.map(op_json), "observed": o.map(op_json),
+                "expected_len": expected.len(), "observed_len": observed.len(),
+            }));
+        }
+    }
+    None
+}
+
+/// The statement seeding the legacy constructors perform (first 20 items of
+/// the V2 list): what `Prover::new` / `Verifier::new` record.
+fn legacy_seed_ops(items_all: &Value, v: &ParsedVerifier) -> Result<Vec<Op>, String> {
+    let items = items_for(items_all, "verifier", 2, 0)?;
+    let none = ParsedProof { points: HashMap::new(), scalars: HashMap::new() };
+    let (_, ops) = run_items(&items[..20], v, &none, &[])?;
+    Ok(ops)
 }
 
 fn version_name(v: u64) -> &'static str {
@@ -256,7 +329,7 @@ fn make_event(
         .get(pis.len())
         .and_then(|x| x.as_array())
         .ok_or_else(|| format!("items: no list for {} public inputs", pis.len()))?;
-    let ch = run_items(items, &v, &p, pis)?;
+    let (ch, _) = run_items(items, &v, &p, pis)?;
     if v.vk_n >= (1 << 30) || v.rows.iter().any(|r| *r >= (1 << 30)) {
         return Err("size out of TLC integer range".into());
     }
@@ -615,19 +688,78 @@ fn reference_verdict(sc: &Value, vbytes: &[u8], pbytes: &[u8]) -> String {
 }
 
 fn real_verdict(vbytes: &[u8], pbytes: &[u8], pis: &[BlsScalar], version: u64) -> String {
+    real_verdict_traced(vbytes, pbytes, pis, version).0
+}
+
+/// The implementation's verdict together with the transcript operations it
+/// recorded while constructing the verifier and while verifying (the trace
+/// hook is process-wide: call from one thread at a time).
+fn real_verdict_traced(
+    vbytes: &[u8],
+    pbytes: &[u8],
+    pis: &[BlsScalar],
+    version: u64,
+) -> (String, Vec<Op>, Vec<Op>, bool) {
+    let mut ops_new = Vec::new();
+    let mut ops_verify = Vec::new();
+    let mut reached = false;
     let r = guarded(|| {
-        let verifier = Verifier::try_from_bytes(vbytes)?;
+        dusk_plonk::verif::transcript_trace_start();
+        let verifier = Verifier::try_from_bytes(vbytes);
+        ops_new = take_real_ops();
+        let verifier = verifier?;
         let proof = Proof::from_slice(pbytes).map_err(Error::from)?;
-        verifier.verify_with_version(&proof, pis, plonk_version(version))
+        reached = true;
+        dusk_plonk::verif::transcript_trace_start();
+        let r = verifier.verify_with_version(&proof, pis, plonk_version(version));
+        ops_verify = take_real_ops();
+        r
     });
-    match &r {
+    if r.is_err() {
+        let _ = dusk_plonk::verif::transcript_trace_take();
+    }
+    let verdict = match &r {
         Ok(Ok(())) => "accept".to_string(),
         Ok(Err(e)) => format!("reject:{}", err_class(e)),
         Err(p) => format!("panic:{}", p.chars().take(120).collect::<String>()),
-    }
+    };
+    (verdict, ops_new, ops_verify, reached)
 }
 
-fn judge(dir: &str) {
+/// Compares what the real verifier did to its transcript with the
+/// specification's item list executed on the same data. `Ok(None)` = the
+/// comparison does not apply (the verifier rejects before any transcript use).
+fn compare_verifier_transcript(
+    items_all: &Value,
+    vbytes: &[u8],
+    pbytes: &[u8],
+    pis: &[BlsScalar],
+    version: u64,
+    ops_new: &[Op],
+    ops_verify: &[Op],
+) -> Result<Option<Value>, String> {
+    let v = parse_verifier(vbytes)?;
+    let p = parse_proof(pbytes)?;
+    let seed = legacy_seed_ops(items_all, &v)?;
+    // construction always seeds the legacy base transcript
+    if let Some(d) = diff_ops(&seed, ops_new) {
+        return Ok(Some(json!({"phase": "construction", "diff": d})));
+    }
+    if pis.len() != v.rows.len() {
+        return Ok(None);
+    }
+    let items = items_for(items_all, "verifier", version, pis.len())?;
+    let (_, expected) = run_items(items, &v, &p, pis)?;
+    // V1/V2 verify on a clone of the transcript built at construction
+    let observed: Vec<Op> = if version == 3 {
+        ops_verify.to_vec()
+    } else {
+        ops_new.iter().chain(ops_verify.iter()).cloned().collect()
+    };
+    Ok(diff_ops(&expected, &observed).map(|d| json!({"phase": "verify", "diff": d})))
+}
+
+fn judge(dir: &str, items_path: Option<&str>) {
     quiet_panics();
     let verifiers: Vec<Vec<u8>> = read_ndjson(&format!("{dir}/verifiers.ndjson"))
         .iter()
@@ -642,16 +774,46 @@ fn judge(dir: &str) {
     for s in read_ndjson(&format!("{dir}/scalars.ndjson")) {
         scalars.insert(s["id"].as_u64().unwrap(), s);
     }
+    // pass 1 (sequential: the trace hook is process-wide): the implementation's
+    // verdict and its transcript, compared with the specification's item list
+    let items_all: Option<Value> = items_path.map(|p| {
+        serde_json::from_reader(BufReader::new(File::open(p).expect("items file"))).expect("items json")
+    });
+    let real_pass: Vec<(String, Value)> = triples
+        .iter()
+        .map(|t| {
+            let vid = t["vid"].as_u64().unwrap() as usize;
+            let version = t["version"].as_u64().unwrap();
+            let pis: Vec<BlsScalar> =
+                t["pis"].as_array().unwrap().iter().map(|h| fe_from_json(h).unwrap()).collect();
+            let pb = resolve_proof(&t["proof"], &proofs).expect("proof spec");
+            let (real, ops_new, ops_verify, reached) =
+                real_verdict_traced(&verifiers[vid], &pb, &pis, version);
+            let tr = match (&items_all, reached) {
+                (Some(items), true) => match compare_verifier_transcript(
+                    items, &verifiers[vid], &pb, &pis, version, &ops_new, &ops_verify,
+                ) {
+                    Ok(None) => json!({"compared": pis.len() == parse_verifier(&verifiers[vid]).map(|v| v.rows.len()).unwrap_or(0), "ok": true}),
+                    Ok(Some(d)) => json!({"compared": true, "ok": false, "phase": d["phase"], "diff": d["diff"]}),
+                    Err(e) => json!({"compared": false, "ok": true, "why": e}),
+                },
+                _ => json!({"compared": false, "ok": true}),
+            };
+            (real, tr)
+        })
+        .collect();
+
     let results: Vec<Value> = triples
         .par_iter()
-        .map(|t| {
+        .zip(real_pass.par_iter())
+        .map(|(t, (real, tr))| {
             let id = t["id"].as_u64().unwrap();
             let vid = t["vid"].as_u64().unwrap() as usize;
             let version = t["version"].as_u64().unwrap();
             let pis: Vec<BlsScalar> =
                 t["pis"].as_array().unwrap().iter().map(|h| fe_from_json(h).unwrap()).collect();
             let pb = resolve_proof(&t["proof"], &proofs).expect("proof spec");
-            let real = real_verdict(&verifiers[vid], &pb, &pis, version);
+            let real = real.clone();
             let reference = match scalars.get(&id) {
                 Some(sc) => reference_verdict(sc, &verifiers[vid], &pb),
                 None => match parse_proof(&pb) {
@@ -669,8 +831,8 @@ fn judge(dir: &str) {
             let mut r = json!({"id": id, "kind": t["kind"], "family": t["family"], "version": version,
                                "real": real, "ref": reference, "agree": agree,
                                "proof": t["proof"], "npi": pis.len(), "vid": vid,
-                               "same_as_base": unchanged});
-            if !agree {
+                               "same_as_base": unchanged, "tr": tr});
+            if !agree || tr["ok"] == json!(false) {
                 r["replay"] = json!({"verifier": hex_bytes(&verifiers[vid]), "proof": hex_bytes(&pb),
                                      "pis": hexs(&pis), "version": version});
             }
@@ -715,7 +877,7 @@ fn main() {
             &arg(&args, "--items").expect("--items"),
             &arg(&args, "--out").expect("--out"),
         ),
-        Some("judge") => judge(&arg(&args, "--dir").expect("--dir")),
+        Some("judge") => judge(&arg(&args, "--dir").expect("--dir"), arg(&args, "--items").as_deref()),
         Some("events") => println!(
             "{}",
             events(&arg(&args, "--items").expect("--items"), &arg(&args, "--dir").expect("--dir"))
